@@ -29,8 +29,10 @@ MODULE = "DfolsVerif.Properties.C07"
 BUILD_TARGETS = ["DfolsVerif.Driver.ValidateDrv"]
 MAIN = "ValidateMain.lean"
 THEOREMS = [
-    "Dfols.C07.gen_eq_spec_params",
-    "Dfols.C07.gen_eq_spec_exit",
+    "Dfols.GenSpec.paramDefaults_eq",
+    "Dfols.GenSpec.paramTypes_eq",
+    "Dfols.GenSpec.exitTable_eq",
+    "Dfols.C07.gen_eq_spec",
     "Dfols.C07.C07_input_error_iff",
     "Dfols.C07.C07_first_failing_check_wins",
     "Dfols.C07.C07_in_domain_never_raises",
@@ -149,8 +151,8 @@ def tok(v, as_arg):
         return "b1" if v else "b0"
     if isinstance(v, int):
         return "i%d" % v
-    if isinstance(v, float):          # includes np.float64
-        return ftok(v) if not as_arg else ftok(v)
+    if isinstance(v, float):          # includes np.float64 (a subclass of float)
+        return ftok(v)
     if as_arg and isinstance(v, np.bool_):
         return "b1" if v else "b0"
     if as_arg and isinstance(v, np.integer):
@@ -635,7 +637,6 @@ def corr_validate(ctx, dfols):
     lean_keys = replies[0].split()[1:]
     replies = replies[1:]
     classes, mism, unmodelled = {}, [], 0
-    key_order_checked = False
     for c, line, rep in zip(cases, lines, replies):
         real, obj = digest_real(dfols, c, stub=True)
         ctx.seen(("c07corr", line))
@@ -646,8 +647,6 @@ def corr_validate(ctx, dfols):
         classes[cl] = classes.get(cl, 0) + 1
         if real != rep:
             mism.append({"tag": c["tag"], "case": c, "protocol": line, "lean": rep[:600], "real": real[:600]})
-        if isinstance(obj, Exception) is False and real.startswith("proceed") and not key_order_checked:
-            key_order_checked = True
     # key order of the real ParameterList (dict order) against the generated table
     from dfols.params import ParameterList
     real_keys = list(ParameterList(2, 3, 10).params.keys())
@@ -694,16 +693,17 @@ def corr_plist(ctx, dfols):
                 try:
                     r = P(key, new_value=v)
                     want.append("ok %s %s" % (tok(r, False), dig()))
-                except ValueError:
-                    want.append("raise ValueError")
+                except Exception as e:
+                    want.append("raise " + type(e).__name__)
             elif u < 0.65:
                 key = ["nope", "tr_radius.eta3", "general"][int(rng.integers(3))]
-                lines.append("pcall %s %s" % (key, ["N", "b1", "i3"][int(rng.integers(3))]))
+                t = ["N", "b1", "i3"][int(rng.integers(3))]
+                lines.append("pcall %s %s" % (key, t))
                 try:
-                    P(key, new_value=dec(["N"]) if lines[-1].endswith("N") else 3)
+                    P(key, new_value={"N": None, "b1": True, "i3": 3}[t])
                     want.append("ok ?")
-                except ValueError:
-                    want.append("raise ValueError")
+                except Exception as e:
+                    want.append("raise " + type(e).__name__)
             elif u < 0.9:
                 key = SPEC_KEYS[int(rng.integers(len(SPEC_KEYS)))]
                 vals = param_values(rng, key, npt)
@@ -712,19 +712,22 @@ def corr_plist(ctx, dfols):
                 lines.append("pcheck %s %s %s" % (key, tok_in(v, False), tok_in(nptv, True)))
                 try:
                     want.append("ok %d" % (1 if P.check_param(key, v, nptv) else 0))
-                except AssertionError:
-                    want.append("raise AssertionError")
+                except Exception as e:
+                    want.append("raise " + type(e).__name__)
             else:
                 lines.append("pcheckall %s" % tok_in(npt, True))
-                ok, bad = P.check_all_params(npt)
-                want.append("ok " + ",".join(bad))
+                try:
+                    ok, bad = P.check_all_params(npt)
+                    want.append("ok " + ",".join(bad) if ok == (len(bad) == 0) else "inconsistent %r %r" % (ok, bad))
+                except Exception as e:
+                    want.append("raise " + type(e).__name__)
             owner.append(i)
         lines.append("pcheck no.such.key b1 i%d" % npt)
         try:
             P.check_param("no.such.key", True, npt)
             want.append("ok ?")
-        except AssertionError:
-            want.append("raise AssertionError")
+        except Exception as e:
+            want.append("raise " + type(e).__name__)
         owner.append(i)
     replies = _driver(ctx, lines)
     if replies is None:
@@ -771,28 +774,61 @@ def corr_exit(ctx, dfols):
         ctx.broke("correspondence:ExitInformation-vs-ExitTable", mm)
 
 
+def _import(ctx):
+    try:
+        return core.import_dfols()
+    except Exception as e:      # the package under test does not even import: a failing input for every property
+        ctx.fail("C07:dfols-import-fails", "import dfols raised %r" % (e,), {"import": True})
+        return None
+
+
 def correspondence(ctx):
-    dfols = core.import_dfols()
-    corr_exit(ctx, dfols)
-    corr_plist(ctx, dfols)
-    corr_validate(ctx, dfols)      # installs the solve_main sentinel in this import of dfols (search re-imports)
+    dfols = _import(ctx)
+    if dfols is None:
+        return
+    # corr_validate installs the solve_main sentinel in this import of dfols (search re-imports a fresh copy)
+    for fn in (corr_exit, corr_plist, corr_validate):
+        try:
+            fn(ctx, dfols)
+        except Exception as e:  # the real code misbehaved in a way the comparison did not anticipate: a disagreement, not a tool failure
+            import traceback
+            ctx.broke("correspondence:%s" % fn.__name__, "%r\n%s" % (e, traceback.format_exc()[-1500:]))
 
 
 # ----------------------------------------------------------------------------------------------
 # failing-input search: the property stated directly on the real solve
 # ----------------------------------------------------------------------------------------------
+def spec_defaults(n, npt, maxfun, noise):
+    """the documented defaults (committed reference), evaluated the way ParameterList.__init__ builds them"""
+    import types
+    d = {}
+    env = {"n": n, "npt": npt, "maxfun": maxfun, "objfun_has_noise": noise, "self": types.SimpleNamespace(params=d),
+           "True": True, "False": False, "None": None}
+    for k, src in SPEC["params"]["defaults"]:
+        d[k] = eval(src, {"__builtins__": {}}, env)
+    return d
+
+
 def boundary_culprits(case):
-    """user parameters sitting exactly on a bound of the documented table (the usual reason for a crash on accepted input)"""
+    """user parameters sitting exactly on a bound of the documented table (the usual reason for a crash on accepted input);
+    a value equal to the key's default cannot be the reason and is left out"""
     out = []
     npt = case["n"] + 1 if case["npt"] == ABSENT or not isinstance(dec(case["npt"]), int) else dec(case["npt"])
+    mf = dec(case["maxfun"]) if case["maxfun"] != ABSENT and isinstance(dec(case["maxfun"]), int) else 100
+    dflt = spec_defaults(case["n"], npt, mf, bool(case["noise"]))
     for k, sv in (case["up"] or []):
         v = dec(sv)
         if k not in SPEC_TYPES or isinstance(v, (bool, np.bool_)) or not isinstance(v, (int, float)):
+            continue
+        if dflt.get(k) is not None and not isinstance(dflt[k], bool) and v == dflt[k]:
             continue
         _ty, _none_ok, lo, hi = spec_entry(k, npt)
         if (lo is not None and v == lo) or (hi is not None and v == hi):
             out.append("%s=%s" % (k, repr(float(v)) if isinstance(v, float) else repr(int(v))))
     return sorted(out)
+
+
+KNOWN_BAD = set()      # boundary values that already failed on their own in this run
 
 
 NAMED = {("slow.history_for_slow=0", "ZeroDivisionError"): "C07:history_for_slow-0-zerodivision",
@@ -802,7 +838,11 @@ NAMED = {("slow.history_for_slow=0", "ZeroDivisionError"): "C07:history_for_slow
 def crash_signature(case, failure):
     """stable signature of a crash / hang on documented input: names the boundary value(s) responsible when there are any"""
     cul = boundary_culprits(case)
+    if len(cul) > 1 and any(c in KNOWN_BAD for c in cul):
+        cul = [c for c in cul if c in KNOWN_BAD]         # attribute a combination to the value(s) known to fail alone
     if cul:
+        if len(cul) == 1:
+            KNOWN_BAD.add(cul[0])
         if len(cul) == 1 and (cul[0], failure) in NAMED:
             return NAMED[(cul[0], failure)]
         # the exception class is not part of the signature: the same division by zero surfaces as ZeroDivisionError or as
@@ -897,7 +937,9 @@ def search_cases(ctx, round_):
 
 
 def search(ctx):
-    dfols = core.import_dfols()
+    dfols = _import(ctx)
+    if dfols is None:
+        return
     boost = getattr(ctx, "boost", 1)
     rounds = 1 if boost == 1 else 2
     t_budget = ctx.scale(55, 1500) * (1 if boost == 1 else 2)
@@ -942,8 +984,16 @@ def search(ctx):
 
 
 def replay(payload):
-    dfols = core.import_dfols()
     rp = payload.get("replay", {})
+    if rp.get("import"):
+        try:
+            core.import_dfols()
+            print("replay: dfols imports now")
+            return 0
+        except Exception as e:
+            print("replay: import dfols still raises %r" % (e,))
+            return 1
+    dfols = core.import_dfols()
     if "case" not in rp:
         print("replay file names a broken obligation, nothing to execute:", payload.get("broken"))
         return 1
